@@ -4,8 +4,12 @@
    also re-checks (by computation) the hypotheses the refinement theorems carry: children strictly
    sorted and pairwise key-disjoint, index keys separating the blocks, internal entries strictly
    icmp-sorted with kinds Del/Val.  Depends on model files only. *)
-From GL Require Import Base.Bytes Codec.IKey Iter.Cursor Iter.Merged Iter.Indexed Iter.DBIter Corr.Cmps Gen.Consts Gen.Inst.
-From Coq Require Import String.
+From GL Require Import Base.Bytes Codec.IKey Codec.Block Codec.Table Codec.TableCheck Codec.TblCrc Codec.Snappy Codec.Bloom
+  Lsm.Lsm Lsm.ReadPath Lsm.IterPath Gen.InstTbl Gen.InstMem Gen.BloomInst.
+From GL Require Export Corr.C01BytesRun.      (* kmem / kfile: the dump format of the byte-level cases *)
+From GL Require Mem.MemDB.
+From GL Require Import Iter.Cursor Iter.Merged Iter.Indexed Iter.DBIter Corr.Cmps Gen.Consts Gen.Inst.
+From Coq Require Import String ZArith.
 
 Inductive mv := mF | mL | mS (k : string) | mN | mP.
 (* observations: oN = (false, nil, nil); oS k v = (true, k, v); oX = anything else *)
@@ -17,7 +21,15 @@ Inductive c02case :=
 | CNested (cid : N) (nested : list (list (string * list (string * string))))
           (children : list (list (string * string))) (ms : list mv) (obs : list ob)
 | CDBIter (cid : N) (entries : list (string * N * string)) (seq : N) (start limit : option string)
-          (ms : list mv) (obs : list ob).
+          (ms : list mv) (obs : list ob)
+(* the byte-level DB iterator (Lsm/IterPath.v dbi_run) on a dumped state - the real arrays of the transaction's,
+   the live and the frozen memdb, the real bytes of every table file (transaction tables, then the pinned
+   version's levels; the KBytes dump format of property C01) - against the walks observed on iterators
+   created on that state: (sequence number, range, calls, observations) *)
+| CDBBytes (cid ri : N) (verify : bool) (fname : option string) (bpk : Z) (strict : bool)
+           (auxm : option kmem) (auxt : list kfile)
+           (mem frozen : option kmem) (lvls : list (list kfile))
+           (walks : list (N * option (option string * option string) * list mv * list ob)).
 
 Definition dec_mv (m : mv) : move bytes :=
   match m with mF => MFirst | mL => MLast | mS k => MSeek (unhex k) | mN => MNext | mP => MPrev end.
@@ -124,6 +136,29 @@ Definition run_case (x : c02case) : bool :=
           end
       | _, _ => false
       end
+  | CDBBytes cid ri verify fname bpk strict auxm auxt mem frozen lvls walks =>
+      let c := cmp_of_id cid in
+      let fn := option_map unhex fname in
+      let ufc := bloom_ufc bp bpk in
+      let st := mkBS (option_map to_mem mem) (option_map to_mem frozen) (map (map to_file) lvls) in
+      let am := option_map to_mem auxm in
+      let aT := map to_file auxt in
+      let okf := tfile_okb c kp tblp tbl_crc snappy_decode fn ufc verify ri in
+      let okm := fun d : option MemDB.db => match d with Some m => mem_keys_okb kp mp m | None => true end in
+      (* the boolean hypotheses of C02_db_iterator_correct_bytes(_gen) *)
+      forallb (forallb okf) (bs_levels st) && forallb okf aT && okm (bs_mem st) && okm (bs_frozen st) && okm am &&
+      match bs_mem st with Some _ => true | None => false end &&
+      match auxm, auxt with
+      | None, [] => wf_fullb c kp (abs c mp tblp tbl_crc snappy_decode fn ufc verify ri st)
+      | _, _ => true
+      end &&
+      forallb (fun w => match w with (s, sl, ms, obs) =>
+                 let slice := option_map (fun ab => (option_map unhex (fst ab), option_map unhex (snd ab))) sl in
+                 match dbi_run c kp mp tblp tbl_crc snappy_decode fn ufc verify strict (N.to_nat 4000) am aT st s slice
+                               (map dec_mv ms) with
+                 | Some outs => obs_eq outs obs
+                 | None => false
+                 end end) walks
   end.
 
 Fixpoint mism_from {A} (f : A -> bool) (i : N) (l : list A) : list N :=
